@@ -585,9 +585,10 @@ func init() {
 	for _, prop := range []string{"C01", "C16"} {
 		prop := prop
 		register(prop, "compression-matrix", false, func(c *Ctx) {
-			accepts := []string{"", "gzip", "deflate", "br", "zstd", "gzip, deflate", "br;q=1.0, gzip;q=0.8", "identity", "xgzipx", "gzip;q=0", "GZIP", "deflate;q=0.5, *;q=0"}
+			// (x-gzip, compress: registered codings the server does not implement)
+			accepts := []string{"", "gzip", "deflate", "br", "zstd", "gzip, deflate", "br;q=1.0, gzip;q=0.8", "identity", "xgzipx", "gzip;q=0", "GZIP", "deflate;q=0.5, *;q=0", "x-gzip", "compress, x-gzip", "x-gzip, gzip"}
 			if !c.Thorough() {
-				accepts = []string{"", "gzip", "deflate", "br", "zstd", "gzip, deflate", "identity", "xgzipx", "gzip;q=0"}
+				accepts = []string{"", "gzip", "deflate", "br", "zstd", "gzip, deflate", "identity", "xgzipx", "gzip;q=0", "x-gzip", "compress, x-gzip"}
 			}
 			cars := []outCarrier{{"polling", 4, false}, {"polling", 3, false}, {"polling", 3, true}, {"jsonp", 4, false}, {"jsonp", 3, true}}
 			seqs := [][]sendSpec{
@@ -623,6 +624,70 @@ func init() {
 			c.Note("polling/jsonp x revisions x httpCompression {unset, threshold 0, 1024, 2005} x Accept-Encoding %v x batches around the threshold with/without a packet requesting compression", accepts)
 		})
 	}
+	// polls of several sessions with different Accept-Encoding headers answered at the same time (C16)
+	register("C16", "concurrent-accept-encodings", false, func(c *Ctx) {
+		n := 0
+		for _, aes := range [][3]string{{"br", "gzip", "gzip"}, {"gzip", "br", "br"}, {"gzip", "", "gzip"}, {"zstd", "deflate", "deflate, zstd"}} {
+			aes := aes
+			n++
+			id := fmt.Sprintf("three sessions, polls pending with Accept-Encoding %q; one answered first, the other two together", aes)
+			c.ExploreDev(id, Pick(c, 1, 2), Pick(c, 3, 4), func(x *vsched.Exec) {
+				o := config.DefaultServerOptions()
+				w := NewWorld(x, o)
+				x.Frozen = true
+				var pcs []*PollClient
+				var polls []*Resp
+				for i := 0; i < 3; i++ {
+					pc := &PollClient{W: w, EIO: 4}
+					if aes[i] != "" {
+						pc.Hdr = map[string]string{"Accept-Encoding": aes[i]}
+					}
+					r := pc.Get()
+					x.Settle()
+					pk, err := pc.DecodeResp(r)
+					if err != nil || len(pk) == 0 {
+						x.Fail("sweep-setup[concurrent AE]: handshake failed")
+						return
+					}
+					open, _ := ParseOpen(pk[0])
+					pc.Sid, _ = open["sid"].(string)
+					pcs = append(pcs, pc)
+					polls = append(polls, pc.Get())
+					x.Settle()
+				}
+				msg := strings.Repeat("compressible ", 200)
+				send := func(i int) {
+					w.ByID[pcs[i].Sid].Sock.Send(types.NewStringBufferString(fmt.Sprintf("%d:%s", i, msg)), &packet.Options{Compress: true}, nil)
+				}
+				vsched.GoNamed("app0", func() { send(0) })
+				x.Settle()
+				x.Frozen = false
+				vsched.GoNamed("app1", func() { send(1) })
+				vsched.GoNamed("app2", func() { send(2) })
+				x.Run(x.Now() + time.Second)
+				for i, r := range polls {
+					cls := fmt.Sprintf("[polling concurrent AE=%q]", aes[i])
+					if !r.wrote || r.Code != 200 {
+						x.Fail("poll-unanswered%s: the poll of session %d was not answered (wrote=%v status %d)", cls, i+1, r.wrote, r.Code)
+						continue
+					}
+					enc := r.Hdr.Get("Content-Encoding")
+					if enc != "" && !acceptNames(aes[i])[enc] {
+						x.Fail("compressed-unnamed-coding%s: session %d's response has Content-Encoding %q, its request's Accept-Encoding is %q", cls, i+1, enc, aes[i])
+					}
+					pk, err := pcs[i].DecodeResp(r)
+					if err != nil || len(pk) != 1 || string(pk[0].Data) != fmt.Sprintf("%d:%s", i, msg) {
+						x.Fail("payload-mismatch%s: session %d's response does not decode to the message sent to it (err=%v, %d packets)", cls, i+1, err, len(pk))
+					}
+				}
+				for _, t := range x.Panics() {
+					x.Fail("panic[concurrent AE]: %v", t.Panic)
+				}
+			})
+		}
+		c.Res.Distinct = int64(n)
+		c.Note("three polling sessions with pending polls carrying different Accept-Encoding headers; one batch answered first, then the other two sessions' batches written concurrently, every interleaving of the two send goroutines up to the bound: each response uses a coding its own request names and decodes to its own message")
+	})
 	// websocket permessage-deflate matrix (C01)
 	register("C01", "deflate-matrix", false, func(c *Ctx) {
 		n := 0
